@@ -147,7 +147,10 @@ def run_crate():
       println!("{i} | {{}}", bytes(&re.replacen(&h, {lim}, rep.as_str()))); }}""".format(
                 pat=pat, hay=hay, i=i, rep=rust_bytes(c[4]), lim=c[3]))
     lines.append("}")
-    open(os.path.join(rx, "src", "main.rs"), "w").write("\n".join(lines) + "\n")
+    new_main = "\n".join(lines) + "\n"
+    mp = os.path.join(rx, "src", "main.rs")
+    if not os.path.exists(mp) or open(mp).read() != new_main:
+        open(mp, "w").write(new_main)
     env = dict(os.environ, CARGO_NET_OFFLINE="true")
     p = subprocess.run(["cargo", "run", "--offline", "-q"], cwd=rx, env=env, capture_output=True, text=True, timeout=900)
     if p.returncode != 0:
@@ -197,10 +200,23 @@ def coq_holds(stmt):
 def main():
     outl = run_crate()
     assert len(outl) == len(CASES), (len(outl), len(CASES))
+    # run on every check (tools/vlib.py regen_pins): what the REAL crate answers today is compared with what the committed
+    # Examples expect; only when it differs is the file rewritten (and then its Examples decide, at the next Coq build,
+    # whether Gen/Regex.v still restates the crate)
+    import hashlib
+    stamp = hashlib.sha256((repr(CASES) + "\n".join(outl)).encode("utf-8")).hexdigest()[:20]
+    dst0 = os.path.join(ROOT, "coq", "Gen", "RegexExamples.v")
+    try:
+        if ("crate-output-stamp: " + stamp) in open(dst0, encoding="utf-8").read():
+            print("rx_crate_examples: unchanged")
+            return
+    except OSError:
+        pass
     v = ["(* GENERATED by tools/rx_crate_examples.py: every expected value below is the OUTPUT OF THE REAL `regex` crate",
          "   (regex 1.13.1, offline registry) on the same pattern and haystack; the AST is what tools/rs2coq_regex.py parses",
          "   from the pattern (hand-written for the last group, which is outside the validated subset).",
          "   find: the matches of captures_iter as (start, end, [group 1; ..; group n]);  repl: replacen(h, limit, rep). *)",
+         "(* crate-output-stamp: %s *)" % stamp,
          "From CV Require Import Model.Base Gen.RustStr Gen.Regex Gen.RegexRt.", "",
          "Definition rx_view (n : nat) (r : regex) (h : text) : list (nat * nat * list (option text)) :=",
          "  map (fun m => (m_start m, m_end m, map (fun g => cap_get g (m_caps m)) (seq 1 n))) (rx_find_iter r h).", ""]
